@@ -441,6 +441,151 @@ def fresh_process(inp):
         return jsonx.load_file(op_)
 
 
+
+# ------------------------------------------------------------- caller dicts
+
+def wr(key: bytes, n=1) -> bytes:
+    return O('WRITE_CACHE') + bytes([len(key)]) + key + bytes([n])
+
+
+def rd(key: bytes) -> bytes:
+    return O('READ_CACHE') + bytes([len(key)]) + key
+
+
+WRITERS = [
+    ('write', isa.push(b'\x02') + isa.push(b'\x01') + wr(b'k', 2)),
+    ('write-new', isa.push(b'z') + wr(b'fresh')),
+    ('pop0', isa.push(b'p') + O('POP0')),
+    ('try', isa.TRY(O('FALSE') + O('VERIFY'), b'')),
+    ('invoke', isa.push(b'a') + isa.push(b'\x01') + isa.push(b'\x55' * 4)
+     + O('INVOKE') + O('POP0')),
+    ('return', O('TRUE') + isa.IF(O('RETURN'))),
+    ('get_message', O('GET_MESSAGE') + b'\x00' + O('POP0')),
+    ('sign', isa.push(bytes(range(32))) + O('SIGN') + b'\x00' + O('POP0')),
+    ('dscalar', isa.push(bytes(range(32))) + O('DERIVE_SCALAR') + O('POP0')),
+    ('read-modify', rd(b'k') + O('POP0') + isa.push(b'\x07') + wr(b'k')),
+    ('raise', O('FALSE') + O('VERIFY')),
+]
+READERS = [
+    rd(b'k'), rd(b'fresh'), rd(b'P'), rd(b'E'), rd(b'IR'), rd(b's'),
+    rd(b'x'), O('TRUE') + isa.IF(b'') + O('TRUE'),
+    isa.TRY(b'', b'') + isa.push(b'end'),
+    O('GET_MESSAGE') + b'\x00',
+    O('TRUE') + isa.LOOP(O('POP0') + O('FALSE')) + isa.push(b'end'),
+]
+
+
+def _rewriting_plugin(tape, stack, cache):
+    cache['sigfield1'] = cache.get('sigfield1', b'') + b'+'
+    cache['sigfield7'] = b'by-plugin'
+
+
+def gen_callerdict(rng):
+    shape = rng.randrange(6)
+    ws = [rng.randrange(len(WRITERS)) for _ in range(rng.randrange(1, 4))]
+    return {'callerdict': {
+        'shape': shape, 'writers': ws, 'reader': rng.randrange(len(READERS)),
+        'entry': rng.choice(('run_script', 'run_auth_scripts',
+                             'run_auth_script', 'run_auth_scripts2')),
+        'plugin': rng.random() < 0.4}}
+
+
+def caller_cache(shape):
+    c = {}
+    if shape in (1, 3, 4, 5):
+        c['timestamp'] = env.NOW0 + 7
+    if shape in (2, 3, 5):
+        c.update(FIELDS)
+    if shape in (4, 5):
+        c[b'k'] = [b'\x09', b'\x08']
+        c['extra'] = [b'x', bytearray(b'y')]
+    return c
+
+
+def _entry(functions, entry, prog, cache, contracts, flags, plugs):
+    import warnings
+    try:
+        if entry == 'run_script':
+            _, st, ch = functions.run_script(prog, cache, contracts, flags,
+                                             plugs)
+            return ('ok', [bytes(x) for x in st.deque],
+                    repr(sorted(ch.items(), key=repr)))
+        if entry == 'run_auth_scripts':
+            return ('auth', functions.run_auth_scripts([prog], cache,
+                                                       contracts, plugs))
+        if entry == 'run_auth_scripts2':
+            return ('auth', functions.run_auth_scripts(
+                [prog[:len(prog) // 2], prog[len(prog) // 2:]], cache,
+                contracts, plugs))
+        with warnings.catch_warnings():
+            warnings.simplefilter('ignore')
+            return ('auth', functions.run_auth_script(prog, cache, contracts,
+                                                      plugs))
+    except BaseException as e:
+        return ('raised', type(e).__name__)
+
+
+def judge_callerdict(ctx, case):
+    """the dictionaries a caller passes to a run receive no mutation at all
+    (every dict method is logged), and a second run handed the very same
+    dictionaries behaves like one handed fresh equal copies"""
+    from .. import instr
+    functions = env.mods()[0]
+    reset_registries()
+    c = case['callerdict']
+    ctx.evaluated()
+    ctx.tab('callerdict.entry', c['entry'])
+    ctx.tab('callerdict.shape', c['shape'])
+    progA = b''.join(WRITERS[w][1] for w in c['writers'])
+    progB = READERS[c['reader']]
+
+    def fresh():
+        cache = instr.RecDict(caller_cache(c['shape']))
+        contracts = instr.RecDict({b'\x55' * 4: Contract(b'local')})
+        flags = instr.RecDict({1: True, 'ts_threshold': 5})
+        plugs = instr.RecDict(
+            {'signature_extensions': [_rewriting_plugin]} if c['plugin']
+            else {})
+        return cache, contracts, flags, plugs
+    d = fresh()
+
+    def view():
+        return repr((copy.deepcopy(dict(d[0])),
+                     [(k, id(v)) for k, v in d[1].items()],
+                     copy.deepcopy(dict(d[2])),
+                     {k: [id(f) for f in v] for k, v in d[3].items()}))
+    snap = view()
+    env.Clock.now = env.NOW0
+    _entry(functions, c['entry'], progA, *d)
+    logs = [('cache', d[0].log), ('contracts', d[1].log),
+            ('additional_flags', d[2].log), ('plugins', d[3].log)]
+    ctx.count('monitor.callerdict_runs')
+    for name, log in logs:
+        if log:
+            ctx.violation('caller-dict-modified', f'{c["entry"]} mutated the '
+                          f"caller's {name} dictionary: {log[:4]!r}"[:300],
+                          case, 'no mutation', repr(log[:6])[:200])
+            return
+    if view() != snap:
+        ctx.violation('caller-dict-modified', f'{c["entry"]} changed a value '
+                      "inside the caller's dictionaries in place", case,
+                      snap[:200], view()[:200])
+        return
+    # second run on the same dictionaries vs on fresh ones
+    env.Clock.now = env.NOW0
+    shared = _entry(functions, c['entry'], progB, *d)
+    env.Clock.now = env.NOW0
+    alone = _entry(functions, c['entry'], progB, *fresh())
+    if shared != alone:
+        ctx.violation('run-leaks-into-later-run', 'a run that reuses the '
+                      "caller's dictionaries after another run behaves "
+                      'differently from one with fresh equal dictionaries',
+                      case, repr(alone)[:200], repr(shared)[:200])
+        return
+    ctx.mark_nontrivial(hashlib.blake2b(repr(sorted(c.items())).encode(),
+                                        digest_size=8).digest())
+
+
 # ------------------------------------------------------------- judging
 
 def run_history(hist, ctx=None, collect=None):
@@ -555,6 +700,8 @@ def run_shard(spec, ctx):
         judge_history(ctx, hist)
         if j % 10 == 0:
             ctx.sample({'history': [list(a) for a in hist[:12]]})
+    for j in range((4000 if tier == 'quick' else 60000) // of):
+        judge_callerdict(ctx, gen_callerdict(ctx.rng(('cd', j))))
 
 
 def finalize(agg, tier):
@@ -562,12 +709,16 @@ def finalize(agg, tier):
     c = agg['counters']
     if not c.get('history_steps'):
         out.append('no history step ran')
+    if not c.get('monitor.callerdict_runs'):
+        out.append('no caller-dictionary run was monitored')
     if not c.get('fresh_process_baselines'):
         out.append('no fresh-process baseline computed')
     return out
 
 
 def replay(case, ctx):
+    if 'callerdict' in case:
+        return judge_callerdict(ctx, case)
     judge_history(ctx, tuple(tuple(a) for a in case['history']))
 
 
